@@ -23,6 +23,7 @@ func init() {
 		Level: "exploration",
 		Rule: "retry expressions generated as ASTs (&&, ||, parentheses, Attempts()/ResponseCode() with all six comparisons against int literals, RequestMethod() ==/!= string, IsNetworkError()), rendered to text for buffer.Retry and evaluated by the harness with standard semantics to predict the number of handler invocations (cap: an attempt <= 10 may be retried, at most 11 invocations); " +
 			"handler scripts per attempt: status in {implicit,200,201,204,304,404,500,502,503,504}, 0-5 headers incl. multi-valued and attempt-specific ones, body in 0-6 chunks of 0-100kB tagged with the attempt number; methods GET/POST/HEAD/PUT; the client-visible response over a real socket is compared with what a bare server running the final attempt's script returns (differential, modulo framing headers); " +
+			"attempt scripts may send 103 before the final status and may write chunks with io.Copy from a plain reader; a quarter of the handlers rewrite r.Method in place; a sixth of the cases run behind ProxyWriter over a recorder with a refused hijack first; " +
 			"non-trivial = >= 2 invocations, or implicit status, or empty body; distinct by (expression, attempt scripts, method)",
 		Assumptions: []string{"real sockets; responses read with net/http's client", "framing headers (Content-Length, Transfer-Encoding, Date, Connection) are not compared"},
 		Parts:       []Part{{Name: "retry", Shards: 12, Fn: c07Retry}},
@@ -138,6 +139,10 @@ func genC07Script(r *rand.Rand, attempt int) c07Script {
 
 func (s c07Script) serve(w http.ResponseWriter, attempt int) {
 	for _, h := range s.Headers {
+		if strings.HasPrefix(h[0], "raw:") { // assigned straight into the map: the name is not canonicalised
+			w.Header()[h[0][4:]] = append(w.Header()[h[0][4:]], h[1])
+			continue
+		}
 		w.Header().Add(h[0], h[1])
 	}
 	if s.Early && s.Status != 0 {
@@ -222,6 +227,9 @@ func c07Retry(c *Ctx) {
 					scripts[k].Status = 200 // a recorder keeps body bytes a real server would refuse
 				}
 				scripts[k].Early = false // (a ResponseRecorder keeps the first status it is given)
+				if r.IntN(2) == 0 { // header names written straight into the map reach the client's writer as written
+					scripts[k].Headers = append(scripts[k].Headers, [2]string{"raw:" + pick(r, []string{"x-trace-id", "X-API-requestID", "SOAPAction"}), sfmt("a%d", k+1)})
+				}
 			}
 		}
 		// model: number of invocations and which attempt is final
